@@ -330,4 +330,4 @@ RIM = {'lat': -84.6, 'lon': 150.0, 'alt': 15000.0, 'VN': 250.0, 'VE': -200.0, 'V
 
 def FALLBACK(tier):
     """numeric oracle specs put to the compiled code when the symbolic run is inconclusive (main.py)"""
-    return [{'check': 'correct', 'point': p, 'params': {'wa': wa}} for wa in (True, False) for p in ({}, RIM)]
+    return [{'check': 'correct', 'point': p, 'params': {'wa': wa}} for wa in (True, False) for p in ({}, RIM, {'lon': 180.0}, {'lon': -180.0, 'lat': -20.0})]
